@@ -109,6 +109,14 @@ def run(prop, spec, tier, seed, v):
         env = C.base_env()
         env["CARGO_TARGET_DIR"] = tdir
         rc, out, err, to = C.run(["cargo", "run", "--offline", "--quiet", "--features", feats], cwd=DOWN, env=env, timeout=900)
+        if not to and "TO_DYN-DONE" not in out and "error" in err and re.search(r"originates in the macro `(\$crate::)?to_dyn`|in this macro invocation|to_dyn!", err) and not re.search(r"error(\[E\d+\])?: .*\n\s*--> src/(?!main\.rs)", err):
+            # the calling crate no longer COMPILES its to_dyn! calls under this feature set (the probe's own code uses nothing
+            # else of the crate but the Reference constructors): "succeeds ... regardless of which features the calling
+            # crate itself declares" is broken at build time
+            first = next((l for l in err.splitlines() if l.startswith("error")), "error")
+            v.evaluations += 1
+            v.add_violation(f"C17/to_dyn/does-not-compile/caller-{cname}", f"caller features [{feats}]: a crate calling to_dyn! does not build: {first}\n" + err[-1500:], "downstream", sub=cname)
+            continue
         if to or "TO_DYN-DONE" not in out:
             raise C.Inconclusive(f"downstream probe (caller features {cname}) did not build/run:\n" + err[-2000:])
         has = set(feats.split(",")) if feats else set()
@@ -128,6 +136,6 @@ def run(prop, spec, tier, seed, v):
             elif res.startswith("alias-broken"):
                 v.add_violation(f"C17/to_dyn-not-aliasing/{var}/downstream", f"caller features [{feats}]: {res}", "downstream", sub=cname)
     for var in ("Ptr", "RcRefCell", "PtrRwLock"):
-        if len(matrix.get(var, {})) != 4:
+        if len(matrix.get(var, {})) != 4 and not any(x["sig"].startswith("C17/to_dyn/does-not-compile") for x in v.violations):
             v.inconclusive.append(f"downstream matrix incomplete for {var}: {matrix.get(var)}")
     v.lanes["downstream_to_dyn_matrix"] = matrix
